@@ -1,14 +1,234 @@
 import EqsigVerif.Model.Displacements
+import EqsigVerif.Model.Im
 import EqsigVerif.Lemmas.Np
-/-! # C08 — property theorems (first batch; the full set is being added) -/
+import EqsigVerif.Lemmas.Im.Velo
+/-!
+# C08 — velocity and displacement are cumulative trapezoid integrals; peaks are max abs
+
+All theorems are stated for an arbitrary linearly ordered field `α` (the driver executes the same
+definitions at `ℚ`; the statements also hold at `ℝ`).  `TrapIncr dt y out`, `RectIncrDelayed`, `RectIncr`
+(defined in `Lemmas/Im/Velo.lean`) are the increment laws *with* equal length and the start value.
+-/
+set_option linter.unusedSectionVars false
+set_option linter.unusedVariables false
 namespace EqsigVerif.Props.C08
-open EqsigVerif.Np EqsigVerif.Model.Displacements
+open EqsigVerif.Np EqsigVerif.Model.Displacements EqsigVerif.Model.Im EqsigVerif.Lemmas.Im
 
-/-- C08.a (trap=True): velocity and displacement have the record's length -/
-theorem trap_lengths (a : List ℚ) (dt : ℚ) :
-    (veloDispTrap a dt).1.length = a.length ∧ (veloDispTrap a dt).2.length = a.length := by
-  simp [veloDispTrap]
+variable {α : Type} [Field α] [LinearOrder α] [IsStrictOrderedRing α]
 
-example : (veloDispTrap [1, 2, (3/4 : ℚ)] (1/2)).1.length = 3 := by decide +kernel
+/-! ## C08.a lengths and zero start (both branches) -/
+
+/-- C08.a: for both values of `trap`, velocity and displacement have the record's length -/
+theorem lengths (a : List α) (dt : α) (trap : Bool) :
+    (veloDisp a dt trap).1.length = a.length ∧ (veloDisp a dt trap).2.length = a.length := by
+  cases trap
+  · simp [veloDisp, veloDispRect, length_rectVFull]
+  · simp [veloDisp, veloDispTrap]
+
+example : (veloDisp [1, 2, 4] (1/2 : ℚ) true).1.length = 3 ∧ (veloDisp [1, 2, 4] (1/2 : ℚ) false).2.length = 3 := by
+  decide +kernel
+
+/-- C08.a: for a non-empty record, both series start at zero (both branches) -/
+theorem zero_start (a : List α) (dt : α) (trap : Bool) (h : a ≠ []) :
+    (veloDisp a dt trap).1[0]? = some 0 ∧ (veloDisp a dt trap).2[0]? = some 0 := by
+  have hpos : 0 < a.length := List.length_pos_iff.mpr h
+  cases trap
+  · obtain ⟨hl1, h1, _⟩ := rect_velocity a dt
+    obtain ⟨hl2, h2, _⟩ := rect_displacement a dt
+    simp only [veloDisp, Bool.false_eq_true, if_false]
+    constructor
+    · rw [List.getElem?_eq_getElem (by omega), h1 hpos]
+    · rw [List.getElem?_eq_getElem (by omega), h2 (by omega), h1 hpos, mul_zero]
+  · obtain ⟨hl1, h1, _⟩ := trapIncr_cumtrapz dt a
+    obtain ⟨hl2, h2, _⟩ := trapIncr_cumtrapz dt (cumtrapz dt a)
+    simp only [veloDisp, if_true, veloDispTrap]
+    constructor
+    · rw [List.getElem?_eq_getElem (by omega), h1 hpos]
+    · rw [List.getElem?_eq_getElem (by omega), h2 (by omega)]
+
+example : (veloDisp [3, 2, 4] (1/2 : ℚ) false).1[0]? = some 0 ∧ (veloDisp [3, 2, 4] (1/2 : ℚ) true).2[0]? = some 0 := by
+  decide +kernel
+
+/-! ## C08.b trapezoid increments and their converse -/
+
+/-- C08.b `trap_increments`: with `(v, d) = veloDispTrap a dt`:
+same lengths, `v[0] = d[0] = 0`, `v[i+1]-v[i] = dt*(a[i+1]+a[i])/2` and `d[i+1]-d[i] = dt*(v[i+1]+v[i])/2`
+at every index (see `TrapIncr`). -/
+theorem trap_increments (a : List α) (dt : α) :
+    TrapIncr dt a (veloDispTrap a dt).1 ∧ TrapIncr dt (veloDispTrap a dt).1 (veloDispTrap a dt).2 :=
+  ⟨trapIncr_cumtrapz dt a, trapIncr_cumtrapz dt (cumtrapz dt a)⟩
+
+/-- C08.b in index form -/
+theorem trap_increments_getElem (a : List α) (dt : α) (i : Nat) (h : i + 1 < a.length) :
+    (veloDispTrap a dt).1[i+1]'(by simp [veloDispTrap]; omega) - (veloDispTrap a dt).1[i]'(by simp [veloDispTrap]; omega)
+        = dt * (a[i+1] + a[i]) / 2 ∧
+    (veloDispTrap a dt).2[i+1]'(by simp [veloDispTrap]; omega) - (veloDispTrap a dt).2[i]'(by simp [veloDispTrap]; omega)
+        = dt * ((veloDispTrap a dt).1[i+1]'(by simp [veloDispTrap]; omega)
+                + (veloDispTrap a dt).1[i]'(by simp [veloDispTrap]; omega)) / 2 := by
+  obtain ⟨⟨_, _, h1⟩, ⟨_, _, h2⟩⟩ := trap_increments a dt
+  exact ⟨h1 i h, h2 i (by simp [veloDispTrap]; omega)⟩
+
+example : (veloDispTrap [1, 2, 4] (1/2 : ℚ)).1[2] - (veloDispTrap [1, 2, 4] (1/2 : ℚ)).1[1] = (1/2) * (4 + 2) / 2 := by
+  decide +kernel
+
+/-- C08.b converse: any pair `(v, d)` with the record's length, zero start and the trapezoid
+increments **is** the model output (so any deviation of an implementation from the model is a violated
+increment identity, at an identifiable index). -/
+theorem trap_increments_converse (a v d : List α) (dt : α)
+    (hv : TrapIncr dt a v) (hd : TrapIncr dt v d) : (v, d) = veloDispTrap a dt := by
+  have h1 : v = cumtrapz dt a := (trapIncr_iff dt a v).mp hv
+  have h2 : d = cumtrapz dt v := (trapIncr_iff dt v d).mp hd
+  rw [h2, h1]; rfl
+
+example : TrapIncr (1/2 : ℚ) [1, 2, 4] [0, 3/4, 9/4] := by
+  rw [trapIncr_iff]; decide +kernel
+
+/-! ## C08.c rectangle-rule increments (`trap=False`) -/
+
+/-- C08.c `rect_increments`: with `(v, d) = veloDispRect a dt`: same lengths, `v[0] = 0`,
+`v[i+1]-v[i] = dt*a[i]`; `d[0] = dt*v[0] (= 0)`, `d[i+1]-d[i] = dt*v[i+1]`. -/
+theorem rect_increments (a : List α) (dt : α) :
+    RectIncrDelayed dt a (veloDispRect a dt).1 ∧ RectIncr dt (veloDispRect a dt).1 (veloDispRect a dt).2 :=
+  ⟨rect_velocity a dt, rect_displacement a dt⟩
+
+example : veloDispRect [1, 2, 4] (1/2 : ℚ) = ([0, 1/2, 3/2], [0, 1/4, 1]) := by decide +kernel
+
+/-- C08.c converse: the rectangle increments with their start values determine the output -/
+theorem rect_increments_converse (a v d : List α) (dt : α)
+    (hv : RectIncrDelayed dt a v) (hd : RectIncr dt v d) : (v, d) = veloDispRect a dt := by
+  have h1 : v = (veloDispRect a dt).1 := rectIncrDelayed_unique dt a _ _ hv (rect_velocity a dt)
+  subst h1
+  have h2 : d = (veloDispRect a dt).2 := rectIncr_unique dt _ _ _ hd (rect_displacement a dt)
+  rw [h2]
+
+example : RectIncrDelayed (1/2 : ℚ) [1, 2, 4] [0, 1/2, 3/2] := by
+  have h : ([0, 1/2, 3/2] : List ℚ) = (veloDispRect [1, 2, 4] (1/2 : ℚ)).1 := by decide +kernel
+  rw [h]; exact rect_velocity _ _
+
+/-! ## C08.d linearity and exactness -/
+
+/-- C08.d additivity (both branches): integrating `a + b` gives the sums of the series -/
+theorem linear_add (a b : List α) (dt : α) (trap : Bool) (h : a.length = b.length) :
+    veloDisp (List.zipWith (· + ·) a b) dt trap =
+      (List.zipWith (· + ·) (veloDisp a dt trap).1 (veloDisp b dt trap).1,
+       List.zipWith (· + ·) (veloDisp a dt trap).2 (veloDisp b dt trap).2) := by
+  cases trap
+  · simp only [veloDisp, Bool.false_eq_true, if_false]; exact veloDispRect_add a b dt h
+  · simp only [veloDisp, if_true]; exact veloDispTrap_add a b dt h
+
+example : veloDisp (List.zipWith (· + ·) [1, 2, 4] [0, -1, 3]) (1/2 : ℚ) true =
+    (List.zipWith (· + ·) (veloDisp [1, 2, 4] (1/2 : ℚ) true).1 (veloDisp [0, -1, 3] (1/2 : ℚ) true).1,
+     List.zipWith (· + ·) (veloDisp [1, 2, 4] (1/2 : ℚ) true).2 (veloDisp [0, -1, 3] (1/2 : ℚ) true).2) :=
+  linear_add _ _ _ _ rfl
+
+/-- C08.d homogeneity (both branches): integrating `c•a` gives `c•v`, `c•d` -/
+theorem linear_smul (a : List α) (dt c : α) (trap : Bool) :
+    veloDisp (a.map (c * ·)) dt trap =
+      ((veloDisp a dt trap).1.map (c * ·), (veloDisp a dt trap).2.map (c * ·)) := by
+  cases trap
+  · simp only [veloDisp, Bool.false_eq_true, if_false]; exact veloDispRect_smul a dt c
+  · simp only [veloDisp, if_true]; exact veloDispTrap_smul a dt c
+
+example : veloDisp ([1, 2, 4].map ((-3 : ℚ) * ·)) (1/2) false = ([0, -3/2, -9/2], [0, -3/4, -3]) := by
+  decide +kernel
+
+/-- C08.d exactness for constant acceleration `a ≡ c`: `v[i] = c·tᵢ`, `d[i] = c·tᵢ²/2` with `tᵢ = i·dt` -/
+theorem exact_constant (n : Nat) (c dt : α) :
+    veloDispTrap (List.replicate n c) dt =
+      ((List.range n).map (fun (i : Nat) => c * ((i : α) * dt)),
+       (List.range n).map (fun (i : Nat) => c * ((i : α) * dt) ^ 2 / 2)) := by
+  have ha : List.replicate n c = sampled n dt (fun _ => c) := by
+    simp [sampled, times, Function.comp_def, List.map_const']
+  have hv : cumtrapz dt (sampled n dt (fun _ => c)) = sampled n dt (fun t => c * t) :=
+    cumtrapz_sampled n dt _ _ (by ring) (fun i => by ring)
+  have hd : cumtrapz dt (sampled n dt (fun t => c * t)) = sampled n dt (fun t => c * t ^ 2 / 2) :=
+    cumtrapz_sampled n dt _ _ (by ring) (fun i => by ring)
+  simp only [veloDispTrap]
+  rw [ha, hv, hd]
+  simp [sampled, times, Function.comp_def]
+
+example : veloDispTrap (List.replicate 4 (3 : ℚ)) (1/2) = ([0, 3/2, 3, 9/2], [0, 3/8, 3/2, 27/8]) := by
+  decide +kernel
+
+/-- C08.d exactness for linearly varying acceleration `a(t) = c₀ + c₁·t` sampled at `tᵢ = i·dt`:
+`v[i] = c₀tᵢ + c₁tᵢ²/2` **exactly**, and `d[i] = c₀tᵢ²/2 + c₁tᵢ³/6 + c₁·dt²·tᵢ/12`: the second
+trapezoid stage integrates a quadratic, its exact error is the last term (zero iff `c₁ = 0`, `dt = 0` or `i = 0`). -/
+theorem exact_linear (n : Nat) (c0 c1 dt : α) :
+    veloDispTrap ((List.range n).map (fun (i : Nat) => c0 + c1 * ((i : α) * dt))) dt =
+      ((List.range n).map (fun (i : Nat) => c0 * ((i : α) * dt) + c1 * ((i : α) * dt) ^ 2 / 2),
+       (List.range n).map (fun (i : Nat) =>
+          c0 * ((i : α) * dt) ^ 2 / 2 + c1 * ((i : α) * dt) ^ 3 / 6 + c1 * dt ^ 2 * ((i : α) * dt) / 12)) := by
+  have ha : (List.range n).map (fun (i : Nat) => c0 + c1 * ((i : α) * dt)) = sampled n dt (fun t => c0 + c1 * t) := by
+    simp [sampled, times, Function.comp_def]
+  have hv : cumtrapz dt (sampled n dt (fun t => c0 + c1 * t)) = sampled n dt (fun t => c0 * t + c1 * t ^ 2 / 2) :=
+    cumtrapz_sampled n dt _ _ (by ring) (fun i => by ring)
+  have hd : cumtrapz dt (sampled n dt (fun t => c0 * t + c1 * t ^ 2 / 2)) =
+      sampled n dt (fun t => c0 * t ^ 2 / 2 + c1 * t ^ 3 / 6 + c1 * dt ^ 2 * t / 12) :=
+    cumtrapz_sampled n dt _ _ (by ring) (fun i => by field_simp; ring)
+  simp only [veloDispTrap]
+  rw [ha, hv, hd]
+  simp [sampled, times, Function.comp_def]
+
+/-- the displacement of a ramp is *not* the exact integral: `a = t` (`c₀=0, c₁=1`), `dt = 1`, `t₂ = 2`:
+`d[2] = 3/2 = 2³/6 + 1·1²·2/12`, whereas `∫∫ = 4/3`. -/
+example : (veloDispTrap ((List.range 3).map (fun (i : Nat) => (0 : ℚ) + 1 * ((i : ℚ) * 1))) 1).2 = [0, 1/4, 3/2] := by
+  decide +kernel
+
+/-! ## C08.e `calc_peak` -/
+
+/-- C08.e `calc_peak_spec`: for a non-empty series `calc_peak x` is the largest `|xᵢ|`
+(an upper bound of all `|xᵢ|` that is attained); for the empty series it fails (`ValueError`). -/
+theorem calc_peak_spec (x : List α) :
+    (x = [] → calcPeak? x = none) ∧
+    (x ≠ [] → ∃ p, calcPeak? x = some p ∧ (∀ y ∈ x, |y| ≤ p) ∧ ∃ y ∈ x, |y| = p) := by
+  constructor
+  · rintro rfl; rfl
+  · intro h; exact calcPeak_isMaxAbs x h
+
+example : calcPeak? ([1, -5, 3] : List ℚ) = some 5 := by decide +kernel
+
+/-- C08.e: and conversely the result is determined by that specification -/
+theorem calc_peak_unique (x : List α) (p : α) (hne : x ≠ [])
+    (hub : ∀ y ∈ x, |y| ≤ p) (hatt : ∃ y ∈ x, |y| = p) : calcPeak? x = some p :=
+  (calcPeak_eq_some_iff x p).mpr ⟨hne, hub, hatt⟩
+
+example : calcPeak? ([1, -5, 3] : List ℚ) = some 5 :=
+  calc_peak_unique _ _ (by simp) (by intro y hy; simp at hy; rcases hy with rfl | rfl | rfl <;> norm_num [abs_le])
+    ⟨-5, by simp, by norm_num [abs_of_neg]⟩
+
+/-- C08.e invariance under sign reversal -/
+theorem calc_peak_neg (x : List α) : calcPeak? (x.map (fun y => -y)) = calcPeak? x := calcPeak_neg x
+
+example : calcPeak? (([1, -5, 3] : List ℚ).map (fun y => -y)) = calcPeak? ([1, -5, 3] : List ℚ) := by decide +kernel
+
+/-- C08.e scaling: `calc_peak (α•x) = |α|·calc_peak x` -/
+theorem calc_peak_smul (x : List α) (c : α) :
+    calcPeak? (x.map (c * ·)) = (calcPeak? x).map (|c| * ·) := calcPeak_smul x c
+
+example : calcPeak? (([1, -5, 3] : List ℚ).map ((-2 : ℚ) * ·)) = some 10 := by decide +kernel
+
+/-- C08.e: `pga`, `pgv`, `pgd` are `calc_peak` of the values, the model velocity and the model
+displacement; hence all three are sign-invariant and scale with `|c|`. -/
+theorem pgx_scale (a : List α) (dt c : α) :
+    pga (a.map (c * ·)) = (pga a).map (|c| * ·) ∧
+    pgv dt (a.map (c * ·)) = (pgv dt a).map (|c| * ·) ∧
+    pgd dt (a.map (c * ·)) = (pgd dt a).map (|c| * ·) := by
+  refine ⟨calcPeak_smul a c, ?_, ?_⟩
+  · simp only [pgv, velocity, veloDispTrap_smul]; exact calcPeak_smul _ c
+  · simp only [pgd, displacement, veloDispTrap_smul]; exact calcPeak_smul _ c
+
+example : pga ([1, -5, 3] : List ℚ) = some 5 ∧ pgv (1/2 : ℚ) [1, -5, 3] = some (3/2) ∧ pgd (1/2 : ℚ) [1, -5, 3] = some (7/8) := by
+  decide +kernel
+
+theorem pgx_neg (a : List α) (dt : α) :
+    pga (a.map (fun y => -y)) = pga a ∧ pgv dt (a.map (fun y => -y)) = pgv dt a ∧
+    pgd dt (a.map (fun y => -y)) = pgd dt a := by
+  have e : (fun y : α => -y) = (fun y => -1 * y) := by funext y; ring
+  obtain ⟨h1, h2, h3⟩ := pgx_scale a dt (-1)
+  rw [e, h1, h2, h3]
+  simp only [abs_neg, abs_one, one_mul]
+  refine ⟨?_, ?_, ?_⟩ <;> simp
+
+example : pgv (1/2 : ℚ) (([1, -5, 3] : List ℚ).map (fun y => -y)) = some (3/2) := by decide +kernel
 
 end EqsigVerif.Props.C08
